@@ -171,6 +171,58 @@ def make_field(spec):
     return f
 
 
+def fresh(x):
+    """A fresh, equal copy of caller-supplied options (one per analysis, as a user would write them)."""
+    import copy
+    return copy.deepcopy(x)
+
+
+def deep_equal(a, b) -> bool:
+    if isinstance(a, dict) and isinstance(b, dict):
+        return list(a.keys()) == list(b.keys()) and all(deep_equal(a[k], b[k]) for k in a)
+    if isinstance(a, (list, tuple)) and isinstance(b, (list, tuple)):
+        return type(a) is type(b) and len(a) == len(b) and all(deep_equal(x, y) for x, y in zip(a, b))
+    if isinstance(a, np.ndarray) or isinstance(b, np.ndarray):
+        return isinstance(a, np.ndarray) and isinstance(b, np.ndarray) and a.shape == b.shape and \
+            a.tobytes() == b.tobytes()
+    return type(a) is type(b) and (a == b or (a != a and b != b))
+
+
+def describe_options(x):
+    if isinstance(x, dict):
+        return {k: describe_options(v) for k, v in x.items()}
+    if isinstance(x, np.ndarray):
+        return "array" + repr(x.tolist())
+    return x
+
+
+def mutation_of(before, after, tolerance=None):
+    """None if the caller's option dicts are unchanged by the call.  Otherwise ('tolerance-defaults', text) when
+    the only change is that ftol/xtol/gtol := the `tolerance` the caller passed were written into the caller's
+    least_squares_params (value does not depend on the analysed data), else ('other', text)."""
+    if deep_equal(before, after):
+        return None
+    text = f"caller's options {describe_options(before)} became {describe_options(after)}"
+
+    def lsp(d):
+        return d.get("least_squares_params") if isinstance(d, dict) else None
+
+    def strip(d):
+        d = fresh(d)
+        holder = d if lsp(d) is not None else d.get("refine_args") if isinstance(d.get("refine_args"), dict) else None
+        if holder is not None and isinstance(lsp(holder), dict) and holder.get("tolerance") is not None:
+            for k in ("ftol", "xtol", "gtol"):
+                if k in holder["least_squares_params"] and holder["least_squares_params"][k] == holder["tolerance"]:
+                    del holder["least_squares_params"][k]
+        return d
+
+    b_holder = before if lsp(before) is not None else before.get("refine_args", {}) or {}
+    added_only = all(k not in (lsp(b_holder) or {}) for k in ("ftol", "xtol", "gtol"))
+    if added_only and deep_equal(before, strip(after)):
+        return ("tolerance-defaults", text)
+    return ("other", text)
+
+
 def canon_droplets(lst):
     return [None if d is None else (type(d).__name__, str(d.data.dtype), d._data_array.tobytes()) for d in lst]
 
@@ -187,14 +239,25 @@ def pos_key(d):
     return np.asarray(d.position, dtype=float).tobytes()
 
 
+# keyword arguments of refine_droplet (= refine_args of locate_droplets), incl. explicit option dicts
+REFINE_KWARGS = [
+    {}, {"vmin": None, "vmax": None}, {"tolerance": 1e-4}, {"adjust_values": True, "vmin": 0.0, "vmax": 1.0},
+    {"adjust_values": True, "least_squares_params": {"max_nfev": 4}},
+    {"adjust_values": True, "vmin": None, "vmax": None, "least_squares_params": {"max_nfev": 6}, "tolerance": 1e-3},
+    {"least_squares_params": {"max_nfev": 5}},
+    {"tolerance": 1e-3, "least_squares_params": {}},
+    {"adjust_values": True, "least_squares_params": {"max_nfev": 8, "xtol": 1e-6}, "tolerance": 1e-4},
+]
+
 CONFIGS_REFINE = [(2, "reversed"), (3, "interleaved"), ("auto", "reversed"), (2, "first_slow"), (3, "reversed"),
                   ("auto", "interleaved"), (2, "none")]
 
 
 def gen_refine_case(rng: random.Random, k: int):
     spec = gen_field_spec(rng)
-    kwargs = rng.choice([{}, {}, {"vmin": None, "vmax": None}, {"tolerance": 1e-4},
-                         {"adjust_values": True, "vmin": 0.0, "vmax": 1.0}])
+    kwargs = rng.choice(REFINE_KWARGS)
+    if "least_squares_params" in kwargs and len(spec["droplets"]) < 3:
+        spec = gen_field_spec(rng, 3, 6)  # several different droplets share (or do not share) the option dicts
     n = len(spec["droplets"])
     drop = [rng.randrange(n)] if rng.random() < 0.4 else []
     np_, pattern = CONFIGS_REFINE[k % len(CONFIGS_REFINE)]
@@ -235,13 +298,26 @@ def run_refine_case(case, log=None, unit=0.12):
     with warnings.catch_warnings():
         warnings.simplefilter("ignore")
         with patched(refine_keys=keys, drop=drop):
-            ser1 = canon_droplets(ia.refine_droplets(field, candidates_of(case, field), num_processes=1, **case["kwargs"]))
-            ser2 = canon_droplets(ia.refine_droplets(field, candidates_of(case, field), num_processes=1, **case["kwargs"]))
-            direct = canon_droplets([ia.refine_droplet(field, c, **case["kwargs"]) for c in candidates_of(case, field)])
+            # every analysis gets a FRESH, equal copy of the caller's options; afterwards the copy is compared
+            # with the original (an analysis that writes into caller-supplied dicts couples the tasks of the
+            # serial branch but not those of the pool, whose workers receive pickled copies)
+            tol = case["kwargs"].get("tolerance")
+            kw = fresh(case["kwargs"])
+            ser1 = canon_droplets(ia.refine_droplets(field, candidates_of(case, field), num_processes=1, **kw))
+            out["mutation_serial"] = mutation_of(case["kwargs"], kw, tol)
+            # ... once more with the SAME (possibly modified) dict object, and once more with a fresh one
+            ser3 = canon_droplets(ia.refine_droplets(field, candidates_of(case, field), num_processes=1, **kw))
+            ser2 = canon_droplets(ia.refine_droplets(field, candidates_of(case, field), num_processes=1,
+                                                     **fresh(case["kwargs"])))
+            direct = canon_droplets([ia.refine_droplet(field, c, **fresh(case["kwargs"]))
+                                     for c in candidates_of(case, field)])
+            out["serial_reused_options"] = ser3
         with patched(refine_keys=keys, delays=delays, drop=drop, log=log) as p:
             try:
+                kw = fresh(case["kwargs"])
                 par = ("ok", canon_droplets(ia.refine_droplets(field, candidates_of(case, field),
-                                                               num_processes=case["num_processes"], **case["kwargs"])))
+                                                               num_processes=case["num_processes"], **kw)))
+                out["mutation_parallel"] = mutation_of(case["kwargs"], kw, tol)
             except Exception as e:  # noqa
                 par = ("err", type(e).__name__)
             out["completed"] = p.completion_order()
@@ -276,6 +352,24 @@ def judge_refine_case(case, obs):
     m = judge_lists(obs["serial"], want, "refine_droplets serial", "[refine_droplet(c) for c in candidates if not None]")
     if m:
         fails.append(m)
+    fails += judge_options(case["kwargs"], obs, "refine_droplets")
+    return fails
+
+
+def judge_options(options, obs, what):
+    """Caller-supplied option dicts: unchanged after the call; reusing the dict object gives the same result."""
+    fails = []
+    for key in ("mutation_serial", "mutation_parallel"):
+        m = obs.get(key)
+        if m is not None and m[0] != "tolerance-defaults":
+            fails.append(f"{what} ({key.split('_')[1]}) modified the caller's option dicts: {m[1]}")
+    if "serial_reused_options" in obs:
+        m = judge_lists(obs["serial"], obs["serial_reused_options"], "first analysis",
+                        "repeated analysis with the same options object") \
+            if isinstance(obs["serial"], list) else (None if obs["serial"] == obs["serial_reused_options"] else
+                                                     "repeated analysis with the same options object differs")
+        if m:
+            fails.append("repeating with the same options: " + m)
     return fails
 
 
@@ -284,7 +378,12 @@ def gen_locate_case(rng: random.Random, k: int):
     spec = gen_field_spec(rng)
     opts = rng.choice([{}, {"threshold": "extrema"}, {"minimal_radius": 1.0}, {"modes": 2},
                        {"modes": 1, "interface_width": 1.0}, {"interface_width": 0.75},
-                       {"refine_args": {"vmin": None, "vmax": None}}, {"threshold": 0.4, "minimal_radius": 0.5}])
+                       {"refine_args": {"vmin": None, "vmax": None}}, {"threshold": 0.4, "minimal_radius": 0.5},
+                       {"refine_args": {"adjust_values": True, "least_squares_params": {"max_nfev": 4}}},
+                       {"refine_args": {"adjust_values": True, "tolerance": 1e-3, "least_squares_params": {"max_nfev": 6}},
+                        "minimal_radius": 0.5}])
+    if "least_squares_params" in opts.get("refine_args", {}):
+        spec = gen_field_spec(rng, 3, 6)
     np_, pattern = [(2, "reversed"), ("auto", "interleaved"), (3, "first_slow")][k % 3]
     return {"call": "locate_droplets", "field": spec, "options": opts, "num_processes": np_, "delays": pattern}
 
@@ -292,14 +391,18 @@ def gen_locate_case(rng: random.Random, k: int):
 def run_locate_case(case, log=None, unit=0.12):
     import droplets.image_analysis as ia
     field = make_field(case["field"])
-    opts = dict(case["options"])
+    opts = fresh(case["options"])
+    tol = (case["options"].get("refine_args") or {}).get("tolerance")
     with warnings.catch_warnings():
         warnings.simplefilter("ignore")
         pre = ia.locate_droplets(field, **{k: v for k, v in opts.items() if k != "refine_args"})
         keys = [pos_key(c) for c in pre]
         delays, sigma = delay_pattern(case["delays"], len(keys), unit)
         ser1 = canon_droplets(ia.locate_droplets(field, refine=True, num_processes=1, **opts))
-        ser2 = canon_droplets(ia.locate_droplets(field, refine=True, num_processes=1, **opts))
+        mut_s = mutation_of(case["options"], opts, tol)
+        ser3 = canon_droplets(ia.locate_droplets(field, refine=True, num_processes=1, **opts))
+        ser2 = canon_droplets(ia.locate_droplets(field, refine=True, num_processes=1, **fresh(case["options"])))
+        opts = fresh(case["options"])
         with patched(refine_keys=keys, delays=delays, log=log) as p:
             try:
                 par = ("ok", canon_droplets(ia.locate_droplets(field, refine=True,
@@ -308,7 +411,8 @@ def run_locate_case(case, log=None, unit=0.12):
                 par = ("err", type(e).__name__)
             completed = p.completion_order()
     return {"n": len(keys), "sigma": sigma, "serial": ser1, "serial_again": ser2, "parallel": par,
-            "completed": completed}
+            "completed": completed, "mutation_serial": mut_s, "mutation_parallel": mutation_of(case["options"], opts, tol),
+            "serial_reused_options": ser3}
 
 
 def judge_locate_case(case, obs):
@@ -323,6 +427,7 @@ def judge_locate_case(case, obs):
                         f"locate_droplets(num_processes={case['num_processes']}, delays: {case['delays']})")
         if m:
             fails.append(m)
+    fails += judge_options(case["options"], obs, "locate_droplets")
     return fails
 
 
@@ -339,7 +444,9 @@ def gen_storage_case(rng: random.Random, k: int):
         s["seed"] = base["seed"] + i
         frames.append(s)
     opts = rng.choice([{}, {"refine": True}, {"minimal_radius": 1.0, "threshold": "extrema"},
-                       {"refine": True, "modes": 1, "refine_args": {"vmin": None, "vmax": None}}])
+                       {"refine": True, "modes": 1, "refine_args": {"vmin": None, "vmax": None}},
+                       {"refine": True, "refine_args": {"adjust_values": True, "tolerance": 1e-3,
+                                                        "least_squares_params": {"max_nfev": 4}}}])
     np_, pattern = [(2, "first_slow"), (3, "reversed"), ("auto", "first_slow"), (1, "none"), (3, "interleaved")][k % 5]
     # the documented `progress` argument: None (default), False, True -- every value with every process count
     return {"call": "from_storage", "frames": frames, "times": [0.5 * i + 0.25 for i in range(n)], "options": opts,
@@ -367,18 +474,25 @@ def run_storage_case(case, log=None, unit=0.12):
     with warnings.catch_warnings():
         warnings.simplefilter("ignore")
         progress = case.get("progress", False)
-        ser1 = canon_tc(EmulsionTimeCourse.from_storage(storage, num_processes=1, progress=False, **case["options"]))
-        ser2 = canon_tc(EmulsionTimeCourse.from_storage(storage, num_processes=1, progress=progress, **case["options"]))
-        direct = [canon_droplets(ia.locate_droplets(f, **case["options"])) for f in storage]
+        tol = (case["options"].get("refine_args") or {}).get("tolerance")
+        kw = fresh(case["options"])
+        ser1 = canon_tc(EmulsionTimeCourse.from_storage(storage, num_processes=1, progress=False, **kw))
+        mut_s = mutation_of(case["options"], kw, tol)
+        ser3 = canon_tc(EmulsionTimeCourse.from_storage(storage, num_processes=1, progress=False, **kw))
+        ser2 = canon_tc(EmulsionTimeCourse.from_storage(storage, num_processes=1, progress=progress,
+                                                        **fresh(case["options"])))
+        direct = [canon_droplets(ia.locate_droplets(f, **fresh(case["options"]))) for f in storage]
+        kw = fresh(case["options"])
         with patched(locate_keys=keys, delays=delays if distinct else None, log=log) as p:
             try:
                 par = ("ok", canon_tc(EmulsionTimeCourse.from_storage(storage, num_processes=case["num_processes"],
-                                                                      progress=progress, **case["options"])))
+                                                                      progress=progress, **kw)))
             except Exception as e:  # noqa
                 par = ("err", type(e).__name__)
             completed = p.completion_order()
     return {"n": len(keys), "sigma": sigma, "serial": ser1, "serial_again": ser2, "direct": direct, "parallel": par,
-            "completed": completed}
+            "completed": completed, "mutation_serial": mut_s, "mutation_parallel": mutation_of(case["options"], kw, tol),
+            "serial_reused_options": ser3}
 
 
 def pairs(tc):
@@ -408,6 +522,7 @@ def judge_storage_case(case, obs):
                              f"{'the emulsion of frame ' + str(moved[0]) + ' (frames reordered, times not)' if moved and a[0] == b[0] else 'a different emulsion'}"
                              f": serial ({a[0]}, {[floats(x) for x in a[1]]}) vs ({b[0]}, {[floats(x) for x in b[1]]})")
                 break
+    fails += judge_options(case["options"], obs, "from_storage")
     return fails
 
 
@@ -597,6 +712,12 @@ def _check(ctx: vlib.Ctx) -> int:
         if "progress" in case:
             ctx.count("progress x num_processes", f"{case['progress']} x {case['num_processes']}")
         ctx.count("tasks", obs["n"])
+        for key in ("mutation_serial", "mutation_parallel"):
+            if key in obs:
+                ctx.count("caller_option_dicts_after_call(" + key.split("_")[1] + ")",
+                          "unchanged" if obs[key] is None else obs[key][0])
+        ro = case.get("kwargs") or case.get("options", {}).get("refine_args") or {}
+        ctx.count("explicit_least_squares_params", "least_squares_params" in ro)
         ctx.count("completion_order_observed(timing, informative only)", order_kind(obs["completed"], obs["n"]))
         e = known_match(failure_class(case, obs, fails)) if fails else None
         if e is not None:
